@@ -173,7 +173,7 @@ def cases(draw):
 
 class C08(Prop):
     ID = "C08"
-    QUICK = 1500
+    QUICK = 3500
     THOROUGH = 40000
     RULE = ("case = (draft, value c, value x obtained from c by 0-3 rewrites at drawn depths: bool<->int, int<->float, "
             "key order, element swap, neighbouring integer, changed character, dropped/added member, -0.0, wrap, "
